@@ -17,6 +17,7 @@ import XlModel.CalcRef
 import XlModel.CalcFloat
 import XlModel.Lemmas.CalcRender
 import XlModel.Lemmas.CalcPair
+import XlModel.Lemmas.CalcKey
 
 namespace XlModel.Props.C08
 open XlModel XlModel.Calc XlModel.Facts.C08 NumOps
@@ -1765,6 +1766,48 @@ theorem resolve_dollar_invariant (sheets : List Str) (cur ref : Str) :
     Impl.resolveRef sheets cur (ref.filter (· ≠ 36)) = Impl.resolveRef sheets cur ref := by
   unfold Impl.resolveRef
   simp [List.filter_filter]
+
+/-- clause "references resolve to the current content of the referenced cells": the resolution
+is stated over (sheet, column, row) triples — the key under which the model looks a cell up
+(`keyOf`, the result of `resolveRef` for a cell and every element of a range) determines the
+column and the row, so two distinct cells of a sheet are never looked up under the same key
+(the seeded change C08-g-1 keyed calc.go's per-evaluation memo by column NUMBER ‖ row, where
+A11 and K1 coincide; tie: the `ev` / `agg` lines of the formula-precedent stream). -/
+theorem resolve_key_injective (sheet : Str) (c r c' r' : Int) (k : Str) (hr : 1 ≤ r) (hr' : 1 ≤ r')
+    (h : Impl.keyOf sheet c r = .ok k) (h' : Impl.keyOf sheet c' r' = .ok k) : c = c' ∧ r = r' :=
+  Impl.keyOf_injective sheet c r c' r' k hr hr' h h'
+
+/-- distinct cells are read independently: whatever the cell environment holds under the key of
+(c, r), a lookup of a different cell (c', r') of the same sheet can be given any other content —
+no two coordinates share an entry -/
+theorem resolve_lookup_independent {V : Type} (sheet : Str) (c r c' r' : Int) (k k' : Str)
+    (hr : 1 ≤ r) (hr' : 1 ≤ r') (hne : (c, r) ≠ (c', r'))
+    (h : Impl.keyOf sheet c r = .ok k) (h' : Impl.keyOf sheet c' r' = .ok k')
+    (env : Str → Option V) (v : Option V) :
+    (fun x => if x = k' then v else env x) k = env k := by
+  have hk : k ≠ k' := by
+    intro e
+    subst e
+    obtain ⟨h1, h2⟩ := resolve_key_injective sheet c r c' r' k hr hr' h h'
+    exact hne (by rw [h1, h2])
+  simp [hk]
+
+/-- worked instances: the colliding coordinates of the seeded change get pairwise distinct keys —
+A11 / K1, B12 / U2, A111 / K11 / DG1 on a sheet "S" — and `resolveRef` reads exactly that cell
+(`A11`, `$K$1`, `Sheet2!A11` from Sheet1) -/
+theorem resolve_key_examples :
+    Impl.keyOf [83] 1 11 = .ok [83, 33, 65, 49, 49] ∧ Impl.keyOf [83] 11 1 = .ok [83, 33, 75, 49] ∧
+    Impl.keyOf [83] 2 12 = .ok [83, 33, 66, 49, 50] ∧ Impl.keyOf [83] 21 2 = .ok [83, 33, 85, 50] ∧
+    Impl.keyOf [83] 1 111 = .ok [83, 33, 65, 49, 49, 49] ∧ Impl.keyOf [83] 11 11 = .ok [83, 33, 75, 49, 49] ∧
+    Impl.keyOf [83] 111 1 = .ok [83, 33, 68, 71, 49] ∧
+    Impl.resolveRef ([[83, 104, 101, 101, 116, 49], [83, 104, 101, 101, 116, 50]] : List Str) [83, 104, 101, 101, 116, 49]
+      [65, 49, 49] = .ok (false, [[83, 104, 101, 101, 116, 49, 33, 65, 49, 49]]) ∧
+    Impl.resolveRef ([[83, 104, 101, 101, 116, 49], [83, 104, 101, 101, 116, 50]] : List Str) [83, 104, 101, 101, 116, 49]
+      [36, 75, 36, 49] = .ok (false, [[83, 104, 101, 101, 116, 49, 33, 75, 49]]) ∧
+    Impl.resolveRef ([[83, 104, 101, 101, 116, 49], [83, 104, 101, 101, 116, 50]] : List Str) [83, 104, 101, 101, 116, 49]
+      [83, 104, 101, 101, 116, 50, 33, 65, 49, 49] = .ok (false, [[83, 104, 101, 101, 116, 50, 33, 65, 49, 49]]) := by
+  refine ⟨by decide +kernel, by decide +kernel, by decide +kernel, by decide +kernel, by decide +kernel,
+    by decide +kernel, by decide +kernel, by decide +kernel, by decide +kernel, by decide +kernel⟩
 
 theorem upByte_idem (b : Nat) : upByte (upByte b) = upByte b := by
   unfold upByte
